@@ -122,7 +122,8 @@ Inductive event :=
 | ESigned (k m : N)         (* a signature by key k over m came into existence *)
 | EAccepted (c k ch : N)    (* a response under key k was verified against the stored challenge ch of c *)
 | EReset (c : N)            (* connection c was (re)opened, disconnected, or its response rejected *)
-| ERemoved (c : N).         (* the peer entry c was removed from the collection *)
+| ERemoved (c : N)          (* the stale peer entry c was merged into a reconnection and removed *)
+| EPurged (c : N).          (* the stale peer entry c was purged (remove_disconnected_peers) *)
 
 (* ---------- maps ---------- *)
 Definition del {V} (k : N) (m : list (N * V)) : list (N * V) :=
@@ -277,7 +278,9 @@ Definition step (g : cfg) (s : state) (a : action)
                     | None => Ok (mkS ps1 (aset K c (addr s)) nx (now s) sg, outs ++ tail, ev0)
                     | Some old =>
                         let ps2 := del idx ps1 in
-                        let ad2 := del K (addr s) in       (* removed, and not re-inserted *)
+                        (* removed by remove_reconnected_peer, then inserted for this
+                           connection (since fix f517868 on both branches) *)
+                        let ad2 := aset K c (del K (addr s)) in
                         match aget c ps2 with
                         | None => Panic SITE_EXPECT_PEER
                         | Some pn =>
@@ -305,7 +308,7 @@ Definition step (g : cfg) (s : state) (a : action)
       let gone := filter (purgeable (now s)) (peers s) in
       let keep := filter (fun cp => negb (purgeable (now s) cp)) (peers s) in
       Ok (mkS keep (fold_left del_key_of gone (addr s)) (next s) (now s) (signed s), [],
-          map (fun cp => ERemoved (fst cp)) gone)
+          map (fun cp => EPurged (fst cp)) gone)
   | ATick dt =>
       Ok (mkS (peers s) (addr s) (next s) (now s + dt) (signed s), [], [])
   | ARemoteSign k m =>
